@@ -119,6 +119,13 @@ def main():
         dist["impl:" + r[1].split(" ")[0]] += 1
         if r[2].startswith("FAIL"):
             dist["oracle:" + vclass(r[2])] += 1
+        for part in (r[4].split(",") if len(r) > 4 and r[4] else []):
+            k, _, v = part.rpartition(":")
+            if v in ("panic", "err"):
+                dist["step-%s:%s" % (v, k)] += 1
+            elif v.isdigit() and k != "dismiss":
+                dist["step-selected>0:" + k] += 1 if int(v) > 0 else 0
+                dist["step-applied:" + k] += 1
         if r[0] != "-":
             rules = r[0][:r[0].index("(schemas")]
             for k in re.findall(r"\((omit|rename|merge_into|compose|properties|duplicate|initialize|promote|add_option|add_factory|rename_arguments|unfold_boolean|sf_args|sf_opts|array_to_append|map_to_index|disj_as_opts|add_assignment|add_comments|empty) ", rules):
